@@ -33,6 +33,7 @@ type PathResult struct {
 	Sample      map[string]uint64 // model of the completed path (witness), optional
 	Trace       []int
 	Leads       []string
+	Narrowed    int
 	choicesCopy map[string]int64
 }
 
@@ -307,10 +308,38 @@ func (m *Machine) noteBinding(c *Term) {
 
 func (m *Machine) check(q *Term, wantModel bool) (string, map[string]uint64) {
 	res, model := m.solver.Check(m.pc, q, wantModel, m.ctx.vars)
+	if res == "unknown" {
+		// The solver gave up at full width. A model found under narrowed value ranges is still a
+		// model of the original query (sat is sat); "unsat" under narrowing proves nothing, so
+		// the answer then stays unknown and the run is reported inconclusive.
+		if r2, m2 := m.checkNarrowed(q, wantModel); r2 == "sat" {
+			m.res.Narrowed++
+			return "sat", m2
+		}
+	}
 	if res == "unknown" || res == "error" {
 		m.res.Unknowns++
 	}
 	return res, model
+}
+
+// checkNarrowed re-asks pc ∧ q with every wide integer variable confined to [-4096, 4096]
+// (one-shot solving): a bug-hunting fallback for queries bit-blasting cannot finish.
+func (m *Machine) checkNarrowed(q *Term, wantModel bool) (string, map[string]uint64) {
+	c := m.ctx
+	pc := append([]*Term(nil), m.pc...)
+	n := 0
+	for _, v := range c.vars {
+		if v.S.K == KBV && v.S.W >= 32 && !v.Valid {
+			w := v.S.W
+			pc = append(pc, c.And(c.Sle(mkInt(w, -4096), v), c.Sle(v, mkInt(w, 4096))))
+			n++
+		}
+	}
+	if n == 0 {
+		return "unknown", nil
+	}
+	return m.solver.CheckOneShot(pc, q, wantModel, c.vars)
 }
 
 // decide resolves an n-way symbolic decision whose alternatives have the
@@ -450,6 +479,9 @@ func (m *Machine) violation(sig, msg string, q *Term) {
 	v := &Violation{Sig: sig, Msg: msg, Harness: m.harness, Trace: append([]int(nil), m.trace...)}
 	if m.wantModel == nil || m.wantModel(sig) {
 		r, model := m.solver.Check(m.pc, q, true, m.ctx.vars)
+		if r == "unknown" {
+			r, model = m.checkNarrowed(q, true)
+		}
 		if r == "sat" {
 			if model == nil {
 				model = map[string]uint64{}
